@@ -753,7 +753,9 @@ fn update_contiguous_length(
     let end = bitfield_update.start + bitfield_update.length;
     let mut c = header.hints.contiguous_length;
     if bitfield_update.drop {
-        if c <= end && c > bitfield_update.start {
+        // Everything below the contiguous length is held, so a dropped range that starts
+        // below it (wherever it ends) makes its first block the first missing one.
+        if c > bitfield_update.start && end > bitfield_update.start {
             c = bitfield_update.start;
         }
     } else if c <= end && c >= bitfield_update.start {
